@@ -292,4 +292,166 @@ theorem eval_trace_of_no_call (env : Env) (e : Expr) (hc : anyCall e = false) :
     · rw [iho hc.2, iht hc.1.1]
   | walrus y e ih => intro s; simp only [anyCall] at hc; simp only [eval]; exact ih hc s
 
+theorem anyCall_of_resCalls (e : Expr) (h : anyCall e = false) : resCalls e = false := by
+  induction e with
+  | un o e ih =>
+    simp only [anyCall, Bool.or_eq_false_iff] at h
+    simp [resCalls, h.1, ih h.2]
+  | bi o l r ihl ihr =>
+    simp only [anyCall, Bool.or_eq_false_iff] at h
+    simp [resCalls, h.1.1, ihl h.1.2, ihr h.2]
+  | call0 f => simp [anyCall] at h
+  | _ => rfl
+
+theorem applyUn_swap' (env : Env) (o : UnOp) (v : Val) (a b : Store) (tr : Trace) :
+    applyUn env o v (a, tr) = ((applyUn env o v (b, tr)).1, (a, (applyUn env o v (b, tr)).2.2)) := by
+  cases o <;> simp [applyUn, callExt]
+theorem applyBi_swap' (env : Env) (o : BiOp) (v w : Val) (a b : Store) (tr : Trace) :
+    applyBi env o v w (a, tr) = ((applyBi env o v w (b, tr)).1, (a, (applyBi env o v w (b, tr)).2.2)) := by
+  cases o <;> simp [applyBi, callExt]
+
+/-- a lift-free expression (a residual; it may contain calls) evaluated in two states with the same trace whose
+    stores agree on its variables: same value, same resulting trace, store untouched -/
+theorem eval_resid_congr (env : Env) (e : Expr) (hl : lifts e = false) :
+    ∀ (s s' : S), (∀ x ∈ vars e, s.1 x = s'.1 x) → s.2 = s'.2 →
+      eval env e s = ((eval env e s').1, (s.1, (eval env e s').2.2)) := by
+  induction e with
+  | var y =>
+    intro s s' h ht
+    show (s.1 y, s) = (s'.1 y, (s.1, s'.2))
+    rw [h y (by simp [vars]), ← ht]
+  | num n => intro s s' _ ht; show (Val.int n, s) = (Val.int n, (s.1, s'.2)); rw [← ht]
+  | bool b => intro s s' _ ht; show (Val.bool b, s) = (Val.bool b, (s.1, s'.2)); rw [← ht]
+  | call0 f =>
+    intro s s' _ ht
+    simp only [eval, callExt, ht]
+  | un o e ih =>
+    intro s s' h ht
+    have h1 := ih hl s s' h ht
+    have hs' := eval_store_of_not_lifts env e hl s'
+    simp only [eval]
+    rw [h1]
+    have : (eval env e s').2 = (s'.1, (eval env e s').2.2) := by rw [← hs']
+    rw [this]
+    exact applyUn_swap' env o _ _ _ _
+  | bi o l r ihl ihr =>
+    intro s s' h ht
+    simp only [lifts, Bool.or_eq_false_iff] at hl
+    simp only [vars, List.mem_append] at h
+    have h1 := ihl hl.1 s s' (fun x hx => h x (Or.inl hx)) ht
+    have hsl := eval_store_of_not_lifts env l hl.1 s'
+    have h2 := ihr hl.2 (s.1, (eval env l s').2.2) (eval env l s').2
+      (fun x hx => by rw [hsl]; exact h x (Or.inr hx)) rfl
+    have hsr := eval_store_of_not_lifts env r hl.2 (eval env l s').2
+    simp only [eval]
+    rw [h1]
+    simp only
+    rw [h2]
+    have : (eval env r (eval env l s').2).2 = (s'.1, (eval env r (eval env l s').2).2.2) := by
+      rw [← hsl, ← hsr]
+    rw [this]
+    exact applyBi_swap' env o _ _ _ _ _
+  | _ => simp [lifts] at hl
+
+/-- a call-free expression does not look at the trace: value and store are the same from any trace -/
+theorem eval_nocall_indep (env : Env) (e : Expr) (hc : anyCall e = false) :
+    ∀ (st : Store) (T T' : Trace), (eval env e (st, T)).1 = (eval env e (st, T')).1 ∧
+      (eval env e (st, T)).2.1 = (eval env e (st, T')).2.1 := by
+  induction e with
+  | var y => intro st T T'; exact ⟨rfl, rfl⟩
+  | num n => intro st T T'; exact ⟨rfl, rfl⟩
+  | bool b => intro st T T'; exact ⟨rfl, rfl⟩
+  | call0 f => simp [anyCall] at hc
+  | un o e ih =>
+    intro st T T'
+    simp only [anyCall, Bool.or_eq_false_iff] at hc
+    obtain ⟨h1, h2⟩ := ih hc.2 st T T'
+    simp only [eval, applyUn_store]
+    refine ⟨?_, h2⟩
+    rw [applyUn_pure env o hc.1 _ _ (eval env e (st, T')).2, h1]
+  | bi o l r ihl ihr =>
+    intro st T T'
+    simp only [anyCall, Bool.or_eq_false_iff] at hc
+    obtain ⟨h1, h2⟩ := ihl hc.1.2 st T T'
+    have tl := eval_trace_of_no_call env l hc.1.2 (st, T)
+    have tl' := eval_trace_of_no_call env l hc.1.2 (st, T')
+    have e1 : (eval env l (st, T)).2 = ((eval env l (st, T')).2.1, T) := Prod.ext h2 tl
+    have e2 : (eval env l (st, T')).2 = ((eval env l (st, T')).2.1, T') := Prod.ext rfl tl'
+    obtain ⟨g1, g2⟩ := ihr hc.2 (eval env l (st, T')).2.1 T T'
+    simp only [eval, applyBi_store]
+    rw [e1, h1]
+    refine ⟨?_, by rw [g2, ← e2]⟩
+    rw [applyBi_pure env o hc.1.1 _ _ _ (eval env r (eval env l (st, T')).2).2, g1, ← e2]
+  | cmp2 o1 o2 l m r ihl ihm ihr =>
+    intro st T T'
+    simp only [anyCall, Bool.or_eq_false_iff] at hc
+    obtain ⟨h1, h2⟩ := ihl hc.1.1 st T T'
+    have e1 : (eval env l (st, T)).2 = ((eval env l (st, T')).2.1, T) :=
+      Prod.ext h2 (eval_trace_of_no_call env l hc.1.1 (st, T))
+    have e2 : (eval env l (st, T')).2 = ((eval env l (st, T')).2.1, T') :=
+      Prod.ext rfl (eval_trace_of_no_call env l hc.1.1 (st, T'))
+    obtain ⟨g1, g2⟩ := ihm hc.1.2 (eval env l (st, T')).2.1 T T'
+    have f1 : (eval env m ((eval env l (st, T')).2.1, T)).2 = ((eval env m ((eval env l (st, T')).2.1, T')).2.1, T) :=
+      Prod.ext g2 (eval_trace_of_no_call env m hc.1.2 _)
+    have f2 : (eval env m ((eval env l (st, T')).2.1, T')).2 = ((eval env m ((eval env l (st, T')).2.1, T')).2.1, T') :=
+      Prod.ext rfl (eval_trace_of_no_call env m hc.1.2 _)
+    obtain ⟨k1, k2⟩ := ihr hc.2 (eval env m ((eval env l (st, T')).2.1, T')).2.1 T T'
+    simp only [eval]
+    rw [e1, h1, g1, f1]
+    rw [e2] at *
+    rw [f2]
+    split
+    · exact ⟨by simp only; rw [k1], k2⟩
+    · exact ⟨rfl, rfl⟩
+  | and l r ihl ihr =>
+    intro st T T'
+    simp only [anyCall, Bool.or_eq_false_iff] at hc
+    obtain ⟨h1, h2⟩ := ihl hc.1 st T T'
+    have e1 : (eval env l (st, T)).2 = ((eval env l (st, T')).2.1, T) :=
+      Prod.ext h2 (eval_trace_of_no_call env l hc.1 (st, T))
+    have e2 : (eval env l (st, T')).2 = ((eval env l (st, T')).2.1, T') :=
+      Prod.ext rfl (eval_trace_of_no_call env l hc.1 (st, T'))
+    obtain ⟨g1, g2⟩ := ihr hc.2 (eval env l (st, T')).2.1 T T'
+    simp only [eval]
+    rw [e1, h1]
+    rw [e2]
+    split
+    · exact ⟨by simp only; rw [g1], g2⟩
+    · exact ⟨rfl, rfl⟩
+  | or l r ihl ihr =>
+    intro st T T'
+    simp only [anyCall, Bool.or_eq_false_iff] at hc
+    obtain ⟨h1, h2⟩ := ihl hc.1 st T T'
+    have e1 : (eval env l (st, T)).2 = ((eval env l (st, T')).2.1, T) :=
+      Prod.ext h2 (eval_trace_of_no_call env l hc.1 (st, T))
+    have e2 : (eval env l (st, T')).2 = ((eval env l (st, T')).2.1, T') :=
+      Prod.ext rfl (eval_trace_of_no_call env l hc.1 (st, T'))
+    obtain ⟨g1, g2⟩ := ihr hc.2 (eval env l (st, T')).2.1 T T'
+    simp only [eval]
+    rw [e1, h1]
+    rw [e2]
+    split
+    · exact ⟨rfl, rfl⟩
+    · exact ⟨by simp only; rw [g1], g2⟩
+  | ite t x y iht ihx ihy =>
+    intro st T T'
+    simp only [anyCall, Bool.or_eq_false_iff] at hc
+    obtain ⟨h1, h2⟩ := iht hc.1.1 st T T'
+    have e1 : (eval env t (st, T)).2 = ((eval env t (st, T')).2.1, T) :=
+      Prod.ext h2 (eval_trace_of_no_call env t hc.1.1 (st, T))
+    have e2 : (eval env t (st, T')).2 = ((eval env t (st, T')).2.1, T') :=
+      Prod.ext rfl (eval_trace_of_no_call env t hc.1.1 (st, T'))
+    simp only [eval]
+    rw [e1, h1]
+    rw [e2]
+    split
+    · exact ihx hc.1.2 _ T T'
+    · exact ihy hc.2 _ T T'
+  | walrus y e ih =>
+    intro st T T'
+    simp only [anyCall] at hc
+    obtain ⟨h1, h2⟩ := ih hc st T T'
+    simp only [eval]
+    exact ⟨h1, by rw [h1, h2]⟩
+
 end GuppyVerif.Builder
